@@ -41,6 +41,17 @@ Theorem C16_channel_file : forall (items : list (list Z)) (ops : list op),
 Proof. exact (chanfile_equiv Z isnl). Qed.
 Print Assumptions C16_channel_file.
 
+(* control operations: the k-th answer the master takes from the control channel is the answer to its k-th request (the
+   channel is a strict request/answer protocol: every ProxyIO operation waits for its own answer -- fact proxy_master_ok) *)
+Definition px_cfg : pcfg := {| every_request_awaits_its_answer := proxy_master_ok |}.
+Theorem C16_control_answers_match : forall code es,
+  pending (ctl_run px_cfg code es) = [] /\ returned (ctl_run px_cfg code es) = map (fun e => (e, answer_of e code)) es.
+Proof. intros code es. exact (control_answers_match px_cfg code es (proj1 C16_cfg_ok)). Qed.
+Print Assumptions C16_control_answers_match.
+Theorem C16_control_desync_refuted :
+  returned (ctl_run {| every_request_awaits_its_answer := false |} 0 [EvCloseWrite; EvWait]) = [(EvWait, ANone)].
+Proof. exact control_desync_refuted. Qed.
+
 Example C16_witness :
   let m1 := {| mty := 4; mcid := 1; mdata := [0; 255; 10] |} in let m2 := {| mty := -1; mcid := -2147483648; mdata := [] |} in
   master_reads [[49; 4; 0]; [0; 0; 1; 0; 0]; []; [0; 3; 0; 255; 10; 255; 128; 0; 0; 0; 0; 0]; [0; 0]] 2 = ([49], [m1; m2]).
